@@ -68,6 +68,7 @@ def main() -> int:
         if args.replay:
             return replay_file(rec, mod, args.replay)
         only = set(args.only.split(",")) if args.only else None
+        rec.only = only
         replay_saved(rec, mod)
         mod.run(rec, only) if only else mod.run(rec)
         return rec.finish()
